@@ -225,6 +225,15 @@ func init() {
 		t := e.ufApply(st, name, 0, a[1].(Slice))
 		return Bool{t}
 	}
+	harnessAPI["vStructField"] = func(e *Engine, st *State, a []Value, ci ssa.CallInstruction) Value {
+		ifc := a[0].(Iface)
+		i := int(a[1].(BV).T.C)
+		stt, ok := ifc.T.Underlying().(*types.Struct)
+		if !ok {
+			panic(abortSignal{"vStructField of non-struct " + ifc.T.String()})
+		}
+		return Iface{T: stt.Field(i).Type(), V: ifc.V.(Struct).F[i]}
+	}
 	harnessAPI["vExpectPanic"] = func(e *Engine, st *State, a []Value, ci ssa.CallInstruction) Value {
 		st.expectPanic = true
 		return nil
